@@ -52,6 +52,15 @@ def call_key(fn, t, ex):
     return k
 
 
+def _swap_prone(F, t):
+    for n in callee_names(t):
+        g = F.fns.get(n)
+        if g is not None:
+            tys = [g["locals"][i]["s"] for i in range(1, g["argc"] + 1)]
+            return len(tys) != len(set(tys))
+    return False
+
+
 def _stable_atoms(e):
     """Origin atoms that survive renames and re-formatting: parameters with their field paths, callee names, constant items,
     and the name of every field that is projected (`field:kernel_mmr_size`) so that same-typed siblings are told apart."""
@@ -124,10 +133,10 @@ def summarize(F, key):
                 cuts += c["edges"]
             if cuts and reach(fn, [0], targets, cuts) is None:
                 order.append([ak, bk])
-    # args of sink calls
+    # args of sink calls, and of calls to workspace functions with two parameters of the same type (swap-prone)
     args = {}
     for bk, blst in sorted(by_key.items()):
-        if not any(c["sink"] for c in blst):
+        if not any(c["sink"] or _swap_prone(F, c["t"]) for c in blst):
             continue
         alts = []
         for c in blst:
